@@ -8,6 +8,7 @@ import Qats.Driver.Rebin
 import Qats.Driver.Peaks
 import Qats.Driver.Pipeline
 import Qats.Driver.Names
+import Qats.Driver.Ownership
 import Qats.Driver.Dtg
 import Qats.Driver.Welch
 import Qats.Driver.Filter
@@ -15,7 +16,7 @@ import Qats.Driver.Filter
 namespace Qats.Driver
 
 def handlers : List (List String → Option String) :=
-  [Rainflow.handle, FindReversals.handle, Qats.Gen.handleGen, SN.handle, Motion.handle, Dist.handle, Rebin.handle, Peaks.handle, Pipeline.handle, Names.handle, Dtg.handle, Welch.handle, Filter.handle]
+  [Rainflow.handle, FindReversals.handle, Qats.Gen.handleGen, SN.handle, Motion.handle, Dist.handle, Rebin.handle, Peaks.handle, Pipeline.handle, Names.handle, Ownership.handle, Dtg.handle, Welch.handle, Filter.handle]
 
 def dispatch (toks : List String) : String :=
   match handlers.findSome? (fun h => h toks) with
